@@ -138,7 +138,7 @@ func (s *c02Sys) Key() string {
 	}
 	// the memory backend can hold residue (delete markers, archived versions) that only
 	// ListObjectVersions shows: it is part of the state key
-	return drv.KeyOf(s.w.Snapshot(drv.SnapOpts{Buckets: probe, Versions: s.w.Cfg.Kind == drv.Mem}))
+	return drv.KeyOf(s.w.Snapshot(drv.SnapOpts{Buckets: probe, Versions: s.w.Cfg.Kind == drv.Mem}) + "MODEL\n" + s.m.Render())
 }
 
 func multiDeleteBody(keys []string, quiet bool) []byte {
